@@ -99,6 +99,10 @@ func isAnalysedPkg(path string) bool {
 func loadWorld(repoDir string) (*World, error) { return loadWorldMin(repoDir, 30) }
 
 func loadWorldMin(repoDir string, minPkgs int) (*World, error) {
+	return loadWorldOverlay(repoDir, minPkgs, nil)
+}
+
+func loadWorldOverlay(repoDir string, minPkgs int, overlay map[string][]byte) (*World, error) {
 	w := &World{RepoDir: repoDir, Fset: token.NewFileSet(), ByPath: map[string]*packages.Package{}, SSAPkg: map[string]*ssa.Package{}, Funcs: map[string]*FuncInfo{}, stats: map[string]int{}}
 
 	// 1. enumerate packages (cheap), filter out test/ and e2e/
@@ -118,7 +122,7 @@ func loadWorldMin(repoDir string, minPkgs int) (*World, error) {
 		return nil, fmt.Errorf("only %d gleece packages found under %s (expected >= %d): build not covered", len(patterns), repoDir, minPkgs)
 	}
 
-	cfg := &packages.Config{Mode: packages.LoadAllSyntax, Dir: repoDir, Fset: w.Fset, Env: os.Environ(), Tests: false}
+	cfg := &packages.Config{Mode: packages.LoadAllSyntax, Dir: repoDir, Fset: w.Fset, Env: os.Environ(), Tests: false, Overlay: overlay}
 	pkgs, err := packages.Load(cfg, patterns...)
 	if err != nil {
 		return nil, fmt.Errorf("load failed: %w", err)
